@@ -230,7 +230,11 @@ func (cc *checkCtx) concordCheck(o *Obligation, rio *replayIO, out string) (bool
 	case "sat":
 		return true, ""
 	case "unsat":
-		return false, "symbolic results differ from the real code's results: " + strings.ReplaceAll(out, "\n", "; ")
+		if dir := os.Getenv("GOVC_CONCORD_KEEP"); dir != "" {
+			os.MkdirAll(dir, 0o755)
+			os.WriteFile(filepath.Join(dir, sanitize(o.Name())+fmt.Sprintf("-p%d.smt2", o.Path)), []byte(q2), 0o644)
+		}
+		return false, fmt.Sprintf("symbolic results differ from the real code's results (%v): ", res.Agree) + strings.ReplaceAll(out, "\n", "; ")
 	}
 	return true, "undecided"
 }
